@@ -76,9 +76,16 @@ def changed_signatures(P):
         f = P.fns.get(name)
         if f is None or f.body.get("in_test"):
             continue
-        ins = [t["s"] for t in f.body.get("inputs", [])]
+        def norm(t):
+            # `&Vec<T>` / `&[T]` and `&String` / `&str` are read alike
+            import re
+            t = re.sub(r"&(mut )?std::vec::Vec<(.*)>$", lambda m: "&%s[%s]" % (m.group(1) or "", m.group(2)), t)
+            return t.replace("&std::string::String", "&str")
+        ins = [norm(t["s"]) for t in f.body.get("inputs", [])]
         o = f.body.get("output", {}).get("s")
-        if ins != list(s["inputs"]):
+        old_ins = [norm(t) for t in s["inputs"]]
+        # (parameters added at the end leave the positions of the pinned ones alone)
+        if ins[:len(old_ins)] != old_ins:
             out[name] = "parameters (%s) were (%s)" % (", ".join(ins)[:120], ", ".join(s["inputs"])[:120])
         elif o != s["output"]:
             out[name] = "result %s was %s" % (o, s["output"])
